@@ -415,6 +415,9 @@ func (a *Act) convert(st *State, x *ssa.Convert) {
 			a.u.Fact(eq(app(d.Fun("str_of_bytes", []string{"Slice"}, "Str"), c), v))
 		} else {
 			a.u.Fact(eq(app("str_len", c), app("slen", v)))
+			// string(bytes): a function of the slice and of the byte contents at this moment
+			lh := a.elemHeap(types.Typ[types.Byte])
+			a.u.Fact(eq(c, app(d.Fun("str_of_bytes_now", []string{"Slice", lh.sort}, "Str"), v, st.heap(lh.name, lh.sort))))
 		}
 		a.set(x, c)
 	default:
